@@ -39,20 +39,28 @@ OUTSIDE = ["liveness of values through weak references (object lifetime under a 
            "accumulators (Run._fc_run is eager by design and excluded by the statement)"]
 
 
+class PullBudget(Exception):
+    """An 'infinite' feed was pulled far beyond anything the consumer needs:
+    stands for a run that would never return."""
+
+
 class Feed(object):
     """Instrumented input iterator."""
 
-    def __init__(self, values, trace, infinite=False):
+    def __init__(self, values, trace, infinite=False, budget=60):
         self.values = values
         self.trace = trace
         self.i = 0
         self.infinite = infinite
+        self.budget = budget
 
     def __iter__(self):
         return self
 
     def __next__(self):
         if self.infinite:
+            if self.i >= self.budget:
+                raise PullBudget()
             v = (self.i, {"i": self.i})
         else:
             if self.i >= len(self.values):
@@ -246,7 +254,10 @@ def check_infinite(stop: int, pre_kind: int, post_kind: int) -> bool:
     with fast_jinja(), quiet():
         feed = Feed([], trace, infinite=True)
         s = Source(feed, make(pre_kind, 0, 0), Slice(stop), make(post_kind, 0, 0))
-        got = list(s())
+        try:
+            got = list(s())
+        except PullBudget:
+            return h.ok(False)
     return h.ok(len(got) == stop and pulls(trace) <= stop)
 
 
@@ -306,7 +317,10 @@ def check_negative_start_positive_stop(s: int, b: int, n: int, infinite: bool) -
     with patched_deque():
         PyDeque.reset_stats()
         feed = Feed(vals, trace, infinite=True if infinite else False)
-        got = list(Slice(-s, b).run(feed))
+        try:
+            got = list(Slice(-s, b).run(feed))
+        except PullBudget:
+            return h.ok(False)
         if PyDeque.high_water > s:
             return h.ok(False)
     if infinite:
